@@ -276,7 +276,7 @@ func (e *Engine) check(extra *Term, wantModel bool) (string, Model) {
 		quick = full
 	}
 	e.solver.TimeoutM = quick
-	res, m := e.solver.Check(as, wantModel)
+	res, m := e.solver.CheckMode(as, wantModel, false)
 	e.solver.TimeoutM = full
 	if res != "sat" && res != "unsat" {
 		// portfolio: cvc5 with bit-vectors as integers, then z3 with the full timeout
